@@ -300,10 +300,22 @@ func ruleC10O2(r *Run) {
 			}
 		}
 	})
+	// the dial: retry.Do / connectWire / wire.Connect called in reconnect, or an unexported helper of the package that
+	// gets there (the redial loop moved to a method of its own)
+	dialNames := []string{"/internal/retry.Do", "/internal/retry.Retry.Do", "/iscp.ConnConfig.connectWire", "/wire.Connect"}
 	var dial ssa.Instruction
 	allInstrs(rec, func(ins ssa.Instruction) {
-		if (isCallNamed(ins, "/internal/retry.Do", "/internal/retry.Retry.Do", "/iscp.ConnConfig.connectWire") || isCallNamed(ins, "/wire.Connect")) && dial == nil {
+		if dial != nil {
+			return
+		}
+		if isCallNamed(ins, dialNames...) {
 			dial = ins
+			return
+		}
+		if cc := instrCall(ins); cc != nil {
+			if cal := cc.StaticCallee(); cal != nil && p.Analysed(cal) && fnPkgPath(cal) == fnPkgPath(rec) && cal.Object() != nil && !cal.Object().Exported() && cal.Signature.Recv() != nil && recvTypeName(cal) == "Conn" && p.reachesCall(cal, 2, dialNames...) {
+				dial = ins
+			}
 		}
 	})
 	ok := false
@@ -326,41 +338,43 @@ func ruleC10O2(r *Run) {
 	okStop := true
 	connects := false
 	bodies := 0
-	allInstrs(rec, func(site ssa.Instruction) {
-		if !isCallNamed(site, "/internal/retry.Do", "/internal/retry.Retry.Do") {
-			return
-		}
-		for _, a := range instrCall(site).Args {
-			cl := closureOf(a)
-			if cl == nil {
-				continue
+	p.withHelpers(rec, 2, func(g *ssa.Function) {
+		allInstrs(g, func(site ssa.Instruction) {
+			if !isCallNamed(site, "/internal/retry.Do", "/internal/retry.Retry.Do") {
+				return
 			}
-			bodies++
-			if p.reachesCall(cl, 4, "/wire.Connect") {
-				connects = true
-			}
-			allInstrs(cl, func(ins ssa.Instruction) {
-				ret, isRet := ins.(*ssa.Return)
-				if !isRet || len(ret.Results) != 1 {
-					return
+			for _, a := range instrCall(site).Args {
+				cl := closureOf(a)
+				if cl == nil {
+					continue
 				}
-				rv := retResults(ret)[0]
-				if k, isK := rv.(*ssa.Const); isK && k.Value != nil && k.Value.String() == "true" {
-					return
+				bodies++
+				if p.reachesCall(cl, 4, "/wire.Connect") {
+					connects = true
 				}
-				good := false
-				if c, isCall := rv.(*ssa.Call); isCall {
-					if cf := c.Call.StaticCallee(); cf != nil && recvTypeName(cf) == "connStatus" && cf.Name() == "Is" {
-						if v, isC := constInt(c.Call.Args[1]); isC && v == closedC {
-							good = true
+				allInstrs(cl, func(ins ssa.Instruction) {
+					ret, isRet := ins.(*ssa.Return)
+					if !isRet || len(ret.Results) != 1 {
+						return
+					}
+					rv := retResults(ret)[0]
+					if k, isK := rv.(*ssa.Const); isK && k.Value != nil && k.Value.String() == "true" {
+						return
+					}
+					good := false
+					if c, isCall := rv.(*ssa.Call); isCall {
+						if cf := c.Call.StaticCallee(); cf != nil && recvTypeName(cf) == "connStatus" && cf.Name() == "Is" {
+							if v, isC := constInt(c.Call.Args[1]); isC && v == closedC {
+								good = true
+							}
 						}
 					}
-				}
-				if !good {
-					okStop = false
-				}
-			})
-		}
+					if !good {
+						okStop = false
+					}
+				})
+			}
+		})
 	})
 	okStop = okStop && connects && bodies > 0
 	r.Check(name+" retry stops on Closed", okStop, p.pos(rec.Pos()), name, "after a failed dial the retry closure must report 'end' exactly when the status is Closed")
@@ -436,9 +450,19 @@ func ruleC10O5(r *Run) {
 			continue
 		}
 		ok := false
-		for _, cl := range fn.AnonFuncs {
-			if !isGoBody(cl) {
-				continue
+		// goroutines started by fn: function literals, or named methods started with go (then the stream's cancel is
+		// one of the arguments)
+		allInstrs(fn, func(gi ssa.Instruction) {
+			g, isGo := gi.(*ssa.Go)
+			if !isGo {
+				return
+			}
+			cl := closureOf(g.Call.Value)
+			if cl == nil {
+				cl = g.Call.StaticCallee()
+			}
+			if cl == nil || cl.Blocks == nil {
+				return
 			}
 			waits, cancels := false, false
 			allInstrs(cl, func(ins ssa.Instruction) {
@@ -453,12 +477,20 @@ func ruleC10O5(r *Run) {
 					if hasLeaf(l, "call:context.WithCancel") {
 						cancels = true
 					}
+					if prm, isP := canonVal(cc.Value).(*ssa.Parameter); isP && prm.Parent() == cl {
+						args := callArgs(&g.Call)
+						for i, q := range cl.Params {
+							if q == prm && i < len(args) && hasLeaf(p.Leaves(args[i], provOpts{}), "call:context.WithCancel") {
+								cancels = true
+							}
+						}
+					}
 				}
 			})
 			if waits && cancels {
 				ok = true
 			}
-		}
+		})
 		r.Check(fnName(fn)+" cancels the stream on connection close", ok, p.pos(fn.Pos()), fnName(fn), "a goroutine must wait for connStatusClosed and then cancel the stream's context")
 	}
 }
@@ -879,6 +911,29 @@ func ruleC10O16(r *Run) {
 				promises = true
 			}
 		}
+		// a named function handed on as the hook (errIfClosed)
+		funcOf := func(v ssa.Value) *ssa.Function {
+			if f := closureOf(v); f != nil {
+				return f
+			}
+			switch x := v.(type) {
+			case *ssa.Function:
+				return x
+			case *ssa.MakeClosure:
+				f, _ := x.Fn.(*ssa.Function)
+				return f
+			}
+			return nil
+		}
+		allInstrs(fn, func(ins ssa.Instruction) {
+			if c, ok := ins.(*ssa.Call); ok {
+				for _, a := range c.Call.Args {
+					if f := funcOf(a); f != nil && f.Blocks != nil && closedTest(f, nil) {
+						promises = true
+					}
+				}
+			}
+		})
 		allInstrs(fn, func(ins ssa.Instruction) {
 			if c, ok := ins.(*ssa.Call); ok {
 				if cal := c.Call.StaticCallee(); cal != nil && cal.Signature.Recv() != nil && namedOf(cal.Signature.Recv().Type()) == holder && cal.Name() == "Is" && len(c.Call.Args) > 1 {
@@ -918,7 +973,7 @@ func ruleC10O16(r *Run) {
 			}
 			for j := range w.viaParams {
 				if j < len(c.Call.Args) {
-					if cl := closureOf(c.Call.Args[j]); cl != nil && closedTest(cl, nil) {
+					if cl := funcOf(c.Call.Args[j]); cl != nil && cl.Blocks != nil && closedTest(cl, nil) {
 						ok = true
 					}
 				}
